@@ -256,6 +256,12 @@ def random_arrays(draw, nmin=1, nmax=5):
             # a crisp layer (fully false / neutral / fully true) stored with an integer element type, among graded ones
             spec = {"data": [int(round(x)) for x in data], "mask": mask, "dtype": draw(st.sampled_from(["int64", "int32", "int8"]))}
         arrays.append(spec)
+    # the same cells as a grid or a cube (time x row x column): operators work cell by cell whatever the shape
+    shapes = [[size]] + [[a, size // a] for a in range(2, size) if size % a == 0] + [[a, b, size // a // b] for a in range(2, size)
+                                                                                  for b in range(1, size) if size % (a * b) == 0 and a * b <= size]
+    shape = draw(st.sampled_from(shapes))
+    for spec in arrays:
+        spec["shape"] = shape
     return arrays
 
 
